@@ -145,6 +145,27 @@ def c_list_forms(ctx, args):
     return None
 
 
+def c_state_tokens(ctx, args):
+    """a stabilizer state tokenizes as the list of its ACTIVE stabilizers (rows r..N-1, each with its own phase): same token array as state.stabilizers.tokenize(), as the
+    tokens of the rows written out, and parsing the tokens gives the stabilizers back -- every rank, every sign pattern, both backends"""
+    be, t = args
+    M = impl(be)
+    n = len(t[0]) // 2
+    st = M.STATE(t)
+    rows = [[list(a[0]), a[1] % 4] for a in t[0][t[1]:n]]
+    tok = [[int(v) for v in r] for r in st.tokenize()]
+    via = [[int(v) for v in r] for r in st.stabilizers.tokenize()]
+    lst = [[int(v) for v in r] for r in M.PL(rows, 2 * n).tokenize()] if rows else []
+    if tok != via or tok != lst:
+        return {'kind': 'oracle', 'where': be + ':StabilizerState.tokenize differs from the tokens of its active stabilizers', 'observed': tok, 'expected': lst, 'tags': ['state_tokens', be]}
+    lib = __import__('pyclifford' if be == 'np' else 'torchclifford')
+    if rows:
+        back = M.oPL(lib.paulis(st.tokenize()))
+        if back != rows:
+            return {'kind': 'oracle', 'where': be + ':parsing the tokens of a state does not give its stabilizers', 'observed': back, 'expected': rows, 'tags': ['state_tokens', be]}
+    return None
+
+
 def c_index(ctx, args):
     be, l, kind, ix = args[:4]
     form = args[4] if len(args) > 4 else 'array'
@@ -259,7 +280,7 @@ def c_op_history(ctx, args):
     return history.operator_history(ctx, kind, n, seed, steps, be)
 
 
-CHECKS = {'op_history': c_op_history, 'ctor_fresh': __import__('props.C17', fromlist=['c_ctor_fresh']).c_ctor_fresh, 'list_forms': c_list_forms, 'repr_objects': c_repr_objects, 'poly_index': c_poly_index, 'roundtrip': c_roundtrip, 'parse_corr': c_parse_corr, 'formats': c_formats, 'index': c_index}
+CHECKS = {'state_tokens': c_state_tokens, 'op_history': c_op_history, 'ctor_fresh': __import__('props.C17', fromlist=['c_ctor_fresh']).c_ctor_fresh, 'list_forms': c_list_forms, 'repr_objects': c_repr_objects, 'poly_index': c_poly_index, 'roundtrip': c_roundtrip, 'parse_corr': c_parse_corr, 'formats': c_formats, 'index': c_index}
 
 
 def run(ctx):
@@ -325,6 +346,9 @@ def run(ctx):
         n = rng.randint(1, 5)
         rows = gen.rplist(rng, n, rng.randint(1, 4))
         do(ctx, 'list_forms', [rng.choice(['np', 'np', 'torch']), rows, ['strings', 'dicts', 'codes', 'objects', 'mixed'][it % 5], rng.randrange(10 ** 6)], nontrivial=('lf', it))
+    for it in range(int(60 * B)):
+        n_ = rng.randint(1, 5)
+        do(ctx, 'state_tokens', [['np', 'torch'][it % 2], gen.rtableau(rng, ctx.model, n_)], nontrivial=('stk', it))
     # the same description parsed twice gives two independent operators (the first one may have been updated in place in between)
     for it in range(int(48 * B)):
         do(ctx, 'ctor_fresh', [['np', 'torch'][it % 2], ['pauli_str', 'paulis_str', 'pauli'][(it // 2) % 3], rng.randint(2, 5), rng.randrange(10 ** 6), ['flip', 'library'][(it // 6) % 2]], nontrivial=('cf', it))
